@@ -62,3 +62,33 @@ Theorem C17_other_table_blocks_are_immaterial : forall tag b l1 l2,
   str_eqb tag GDEF = false -> user_gdef (l1 ++ TBlock tag b :: l2) = user_gdef (l1 ++ l2).
 Proof. exact user_gdef_ignores_other_blocks. Qed.
 Print Assumptions C17_other_table_blocks_are_immaterial.
+
+(* ---- the script / language / lookupflag context of the user's rules when the marker stands in the middle of a feature
+   (Fea/Context.v; BaseFeatureWriter._contextAt after repair F36) ---- *)
+From U2F Require Import Fea.Context Fea.ContextProofs.
+
+(* splitting a hand-written feature at the marker keeps every rule AND the context it is interpreted under: the rules of the two
+   resulting blocks, each with its script / language / lookupflag, are those of the original block *)
+Theorem C17_split_at_the_marker_keeps_every_rule_and_its_context : forall before after,
+  let '(b1, b2) := split_blocks before after in
+  rules_with_ctx b1 ctx0 ++ rules_with_ctx b2 ctx0 = rules_with_ctx (before ++ after) ctx0.
+Proof. exact split_keeps_every_rule_and_its_context. Qed.
+Print Assumptions C17_split_at_the_marker_keeps_every_rule_and_its_context.
+
+(* the statements put at the head of the second block re-create exactly the context in effect at the marker, are at most one of
+   each kind (script first), and contain no rule *)
+Theorem C17_context_statements_recreate_the_context : forall l, ctx_after (context_at l) ctx0 = ctx_after l ctx0.
+Proof. exact context_at_recreates. Qed.
+Print Assumptions C17_context_statements_recreate_the_context.
+
+Theorem C17_context_statements_add_no_rule : forall l c, rules_with_ctx (context_at l) c = [].
+Proof. exact context_at_has_no_rules. Qed.
+Print Assumptions C17_context_statements_add_no_rule.
+
+(* the statement was false of the code before the repair 824fe5b *)
+Example C17_split_lost_the_context_before_the_fix :
+  let before := [SScript 1; SLanguage 2; SRule 10] in let after := [SRule 20] in
+  let '(b1, b2) := split_blocks_v0 before after in
+  rules_with_ctx b1 ctx0 ++ rules_with_ctx b2 ctx0 <> rules_with_ctx (before ++ after) ctx0.
+Proof. exact split_v0_loses_the_context. Qed.
+Print Assumptions C17_split_lost_the_context_before_the_fix.
